@@ -190,6 +190,22 @@ pub fn run(ctx: &Ctx, rep: &mut Report) {
         };
         check_tree(&e, &format!("shapes:{}", i), &mut r, rep, 4);
     });
+    // stream shared: trees in which one Rc sub-tree occurs in several places (Expression is Clone)
+    let n_shared = ctx.pick(1200, 120_000);
+    par_cases(ctx, "shared", n_shared, rep, |i, rep| {
+        let mut r = Rng::for_case(ctx.seed, "shared", i);
+        let leaves = 1 + r.usize(3);
+        let inner = gen_tree(&mut r, leaves + 1, &mut |r| gen_leaf(r, 50));
+        let ops: [fn(Expression, Expression) -> Expression; 3] = [and, or, list];
+        let twice = ops[(i % 3) as usize](inner.clone(), inner.clone());
+        let e = match (i / 3) % 4 {
+            0 => twice,
+            1 => ops[r.usize(3)](twice.clone(), twice),
+            2 => ops[r.usize(3)](not(inner.clone()), twice),
+            _ => ops[r.usize(3)](twice, gen_leaf(&mut r, 50)),
+        };
+        check_tree(&e, &format!("shared:{}", i), &mut r, rep, 3);
+    });
     // stream heavy: many matchers / printers so that identifiers and frame tags go past one digit
     let n_heavy = ctx.pick(600, 40_000);
     par_cases(ctx, "heavy", n_heavy, rep, |i, rep| {
